@@ -469,7 +469,7 @@ func randMask(rng *rand.Rand, n int) uint64 {
 		}
 		return (((uint64(1) << uint(b-a+1)) - 1) << uint(a)) & full
 	default:
-		return rng.Uint64() & rng.Uint64() & full | rng.Uint64()&rng.Uint64()&rng.Uint64()&full
+		return rng.Uint64()&rng.Uint64()&full | rng.Uint64()&rng.Uint64()&rng.Uint64()&full
 	}
 }
 
